@@ -102,17 +102,19 @@ def run (α : Type) [Scalar α] [Codec α] (op : String) (c : Ctx) : Option (Rd 
       let rot : List (V3 α) ← Rd.list c (Rd.v3 c)
       pure (" ".intercalate ((sortKeys rot).map fun k => s!"{Out.sc k.1} {Out.sc k.2}"))
   | "c15.convexpolyhedron" => some do
-      -- in: rows hull (count, or -1 = QhullError) ; out: n src | E:
+      -- in: rows hull (count, -1 = QhullError, -2 = scipy's ValueError on nan / empty input) ; out: n src | E:
       let rows : List (V3 α) ← Rd.list c (Rd.v3 c)
       let h ← Rd.int c
-      let hull : List (V3 α) → Except String Nat := fun _ => if h < 0 then .error "other:QhullError" else .ok h.toNat
+      let hull : List (V3 α) → Except String Nat := fun _ =>
+        if h == -2 then .error "ValueError:hull" else if h < 0 then .error "other:QhullError" else .ok h.toNat
       pure (reply (ConvexPolyhedron.new rows hull) fun p =>
         s!"{Out.int p.vertices.length} {Out.int (srcInt p.verticesSrc)}")
   | "c15.spheropolyhedron" => some do
       let rows : List (V3 α) ← Rd.list c (Rd.v3 c)
       let radius : α ← Rd.sc c
       let h ← Rd.int c
-      let hull : List (V3 α) → Except String Nat := fun _ => if h < 0 then .error "other:QhullError" else .ok h.toNat
+      let hull : List (V3 α) → Except String Nat := fun _ =>
+        if h == -2 then .error "ValueError:hull" else if h < 0 then .error "other:QhullError" else .ok h.toNat
       pure (reply (ConvexSpheropolyhedron.new rows radius hull) fun s =>
         s!"{Out.sc s.radius} {Out.int s.polyhedron.vertices.length}")
   | "c15.circle" => some do
@@ -129,10 +131,44 @@ def run (α : Type) [Scalar α] [Codec α] (op : String) (c : Ctx) : Option (Rd 
       let a : α ← Rd.sc c; let b : α ← Rd.sc c; let cc : α ← Rd.sc c; let ce : V3 α ← Rd.v3 c
       pure (reply (Ellipsoid.new a b cc ce) fun o =>
         s!"{Out.sc o.a} {Out.sc o.b} {Out.sc o.c} {Out.v3 o.centroid} {Out.int (srcInt o.centroidSrc)}")
+  | "c15.alloc" => some do
+      -- allocation trace of a constructor with /repo's conversion table.
+      -- in: cls ncols vkind nkind fkind nfaces ckind   (kinds: 0 list/tuple, 1 float64 ndarray, 2 other ndarray,
+      --     nkind -1 = no normal; fkind 0 nested lists, 1 list of ndarrays, 2 one 2-D ndarray)
+      -- caller blocks: vertices 1, normal 2, centre 3, 2-D faces 4, face arrays 10+i; allocation starts at 1000
+      -- out: vertices normal centre equations (block or -1) k writes… m faces…
+      let cls ← Rd.int c; let ncols ← Rd.nat c
+      let vk ← Rd.int c; let nk ← Rd.int c; let fk ← Rd.int c; let nf ← Rd.nat c; let ck ← Rd.int c
+      let arg (k : Int) (blk : Nat) : ArgKind := if k == 1 then .nd true blk else if k == 2 then .nd false blk else .seq
+      let s0 : Alloc := ⟨1000, []⟩
+      let verts := arg vk 1
+      let normal : Option ArgKind := if nk < 0 then none else some (arg nk 2)
+      let faces : FacesKind := if fk == 1 then .arrays ((List.range nf).map (10 + ·)) else if fk == 2 then .array2d 4 else .nested
+      let out (v n ce e : Int) (w : List Nat) (f : List Nat) : String :=
+        Out.ints ([v, n, ce, e, Int.ofNat w.length] ++ w.map Int.ofNat ++ [Int.ofNat f.length] ++ f.map Int.ofNat)
+      if cls == 0 then
+        let r := Polygon.alloc repoSites ncols verts normal s0
+        pure (out r.1.vertices r.1.normal (-1) (-1) r.2.writes [])
+      else if cls == 1 || cls == 2 then
+        let r := ConvexPolygon.alloc repoSites ncols verts normal s0
+        pure (out r.1.vertices r.1.normal (-1) (-1) r.2.writes [])
+      else if cls == 3 then
+        let r := Polyhedron.alloc repoSites verts faces nf s0
+        pure (out r.1.vertices (-1) (-1) r.1.equations r.2.writes r.1.faces)
+      else if cls == 4 || cls == 5 then
+        let r := ConvexPolyhedron.alloc repoSites verts nf s0
+        pure (out r.1.vertices (-1) (-1) r.1.equations r.2.writes r.1.faces)
+      else
+        let cu : Curved := if cls == 6 then .circle else if cls == 7 then .sphere else if cls == 8 then .ellipse else .ellipsoid
+        let r := Curved.alloc repoSites cu (arg ck 3) s0
+        pure (out (-1) (-1) r.1 (-1) r.2.writes [])
   | "spec.c15.simple" => some do
       -- in: 2-D points ; out: Spec.simple  Spec.edgesOK  Spec.distinct
       let pts : List (P2 α) ← Rd.list c (rdP2 c)
       pure s!"{Out.bool (Spec.simple pts)} {Out.bool (Spec.edgesOK pts)} {Out.bool (Spec.distinct pts)}"
+  | "spec.c15.sameturns" => some do
+      let pts : List (P2 α) ← Rd.list c (rdP2 c)
+      pure (Out.bool (Spec.sameTurns pts))
   | "spec.c15.segmeet" => some do
       let a : P2 α ← rdP2 c; let b : P2 α ← rdP2 c; let cc : P2 α ← rdP2 c; let d : P2 α ← rdP2 c
       pure (Out.bool (Spec.segMeet a b cc d))
